@@ -62,8 +62,9 @@ vars == <<phase, sc, car, res, devUsed>>
 
 (* ---------------- abstract span contexts (inject side) ------------------ *)
 NoSC == [has |-> FALSE, tid |-> "zero", sid |-> "zero", fl |-> 0, ts |-> "none", remote |-> FALSE]
-SCs  == {[has |-> TRUE, tid |-> t, sid |-> s, fl |-> f, ts |-> x, remote |-> r] :
-            t \in TidC, s \in SidC, f \in FlagBytes, x \in TsC, r \in BOOLEAN} \cup {NoSC}
+SCs  == {c \in [has : {TRUE}, tid : TidC, sid : SidC, fl : FlagBytes, ts : TsC, remote : BOOLEAN] :
+            \* the 32-member trace state (slow to build) only with the representative flag bytes
+            c.ts = "full32" => c.fl \in RepFlags} \cup {NoSC}
 Valid(c) == c.has /\ c.tid # "zero" /\ c.sid # "zero"
 
 (* ---------------- abstract carriers ------------------------------------- *)
@@ -82,6 +83,8 @@ Alt(d) == CASE d = "p"     -> {"absent"}
             [] d = "st"    -> {"trunc3", "trunc2", "trunc1", "blank", "sepbad", "sepdup", "cut"}
             [] d = "cs"    -> {"upper", "mixed", "flupper"}
 CarTs == {"none", "one", "three"}
+\* printed once per run: the partition's vocabulary (the check verifies that every value was replayed)
+ASSUME PrintT(<<"DIMS", ToJson([d \in Dims |-> Alt(d) \cup {DefTP[d]}])>>)
 EmptyCar == [tp |-> [DefTP EXCEPT !.p = "absent"], ts |-> "none"]
 
 HasLetter(b) == (b \div 16) >= 10 \/ (b % 16) >= 10
